@@ -164,6 +164,42 @@ Section Alist.
         intros [H | H]; apply in_or_app; [right; left; auto | left; auto].
       + intros G [H | H]; [left; auto |]. right. auto.
   Qed.
+  (* keys *)
+  Lemma alist_set_keys k v l : In k (map fst l) -> map fst (alist_set k v l) = map fst l.
+  Proof.
+    induction l as [| [k' v'] r IH]; cbn [alist_set map fst]; [intros [] |].
+    destruct (naddr_eqb k k') eqn:E.
+    - apply naddr_eqb_eq in E. subst. reflexivity.
+    - intros [H | H]; [subst; rewrite naddr_eqb_refl in E; discriminate |].
+      cbn [map fst]. rewrite IH; auto.
+  Qed.
+  Lemma alist_remove_keys_incl k l : incl (map fst (alist_remove k l)) (map fst l).
+  Proof. apply incl_map. intros x. apply In_alist_remove. Qed.
+  Lemma alist_remove_NoDup k l : NoDup (map fst l) -> NoDup (map fst (alist_remove k l)).
+  Proof.
+    induction l as [| [k' v'] r IH]; cbn [alist_remove map fst]; [auto |].
+    intros H. inversion H as [| x y H1 H2]; subst. destruct (naddr_eqb k k'); [exact H2 |].
+    cbn [map fst]. constructor; [| auto]. intros Hin. apply H1. eapply alist_remove_keys_incl; eauto.
+  Qed.
+  Lemma alist_remove_gone k l : NoDup (map fst l) -> ~ In k (map fst (alist_remove k l)).
+  Proof.
+    induction l as [| [k' v'] r IH]; cbn [alist_remove map fst]; [auto |].
+    intros H. inversion H as [| x y H1 H2]; subst. destruct (naddr_eqb k k') eqn:E.
+    - apply naddr_eqb_eq in E. subst. exact H1.
+    - cbn [map fst]. intros [Hin | Hin]; [subst; rewrite naddr_eqb_refl in E; discriminate |].
+      exact (IH H2 Hin).
+  Qed.
+  Lemma to_back_NoDup k v l : NoDup (map fst l) -> NoDup (map fst (alist_remove k l ++ [(k, v)])).
+  Proof.
+    intros H. rewrite map_app. cbn [map fst].
+    assert (Hs : forall (l0 : list naddr) x, NoDup l0 -> ~ In x l0 -> NoDup (l0 ++ [x])).
+    { intros l0 x. induction l0 as [| a l0 IH]; cbn.
+      - intros _ _. constructor; [intros [] | constructor].
+      - intros Hn Hx. inversion Hn; subst. constructor.
+        + intros Hin. apply in_app_or in Hin. destruct Hin as [Hin | [Hin | []]]; [contradiction | subst; apply Hx; left; reflexivity].
+        + apply IH; [assumption | intros Hin; apply Hx; right; exact Hin]. }
+    apply Hs; [apply alist_remove_NoDup; exact H | apply alist_remove_gone; exact H].
+  Qed.
 End Alist.
 
 Lemma tl_In {A} (l : list A) x : In x (tl l) -> In x l.
@@ -217,6 +253,12 @@ Proof. intros H1 H2 na se H. destruct (H1 _ _ H) as [se1 H3]. exact (H2 _ _ H3).
 Lemma SessF_same h h' : sessions h' = sessions h -> SessF h h'.
 Proof. intros E na se H. rewrite E. eauto. Qed.
 
+(* at most one session per node address *)
+Definition SessUniq (h : hstate) : Prop := NoDup (map fst (sessions h)).
+Definition UPres (h h' : hstate) : Prop := SessUniq h -> SessUniq h'.
+Lemma UPres_same h h' : sessions h' = sessions h -> UPres h h'.
+Proof. unfold UPres, SessUniq. intros ->. auto. Qed.
+
 (* ------------------------------------------------------------------------------------------ *)
 (* outputs: a step only appends *)
 
@@ -259,15 +301,18 @@ Proof. destruct o as [[]|]; cbn; auto. Qed.
 (* the frame of the "quiet" handler functions: challenges untouched, no new session / key, counters
    monotone, outputs appended are datagrams or RequestFailed *)
 
-Definition QH (h h' : hstate) : Prop := challenges h' = challenges h /\ SessD h h'.
+Definition QH (h h' : hstate) : Prop := challenges h' = challenges h /\ SessD h h' /\ UPres h h'.
 Definition Quiet (s s' : st) : Prop := QH (hs s) (hs s') /\ OutsExt quiet_out s s'.
 
 Lemma QH_refl h : QH h h.
-Proof. split; [reflexivity | apply SessD_refl]. Qed.
+Proof. split; [reflexivity | split; [apply SessD_refl | intros H; exact H]]. Qed.
 Lemma QH_trans a b d : QH a b -> QH b d -> QH a d.
-Proof. intros [E1 D1] [E2 D2]. split; [congruence | eapply SessD_trans; eauto]. Qed.
+Proof.
+  intros [E1 [D1 U1]] [E2 [D2 U2]]. split; [congruence | split; [eapply SessD_trans; eauto |]].
+  intros H. apply U2. apply U1. exact H.
+Qed.
 Lemma QH_same h h' : challenges h' = challenges h -> sessions h' = sessions h -> QH h h'.
-Proof. intros E1 E2. split; [exact E1 | apply SessD_same; exact E2]. Qed.
+Proof. intros E1 E2. split; [exact E1 | split; [apply SessD_same; exact E2 | apply UPres_same; exact E2]]. Qed.
 
 Lemma Quiet_refl s : Quiet s s.
 Proof. split; [apply QH_refl | apply OutsExt_refl]. Qed.
@@ -336,9 +381,11 @@ Proof. rewrite sess_get_snd. intros E. apply sess_get_In. apply alist_get_In. ex
 
 Lemma QH_sess_get h na : QH h (fst (sess_get h na)).
 Proof.
-  split.
+  split; [| split].
   - unfold sess_get. destruct (alist_get na (sessions h)); reflexivity.
   - intros x se H. apply sess_get_In in H. exists se. split; [exact H | apply sess_desc_refl].
+  - unfold UPres, SessUniq, sess_get. destruct (alist_get na (sessions h)); cbn [fst]; [| auto].
+    cbn [sessions set_sessions]. apply to_back_NoDup.
 Qed.
 Lemma SessF_sess_get h na : SessF h (fst (sess_get h na)).
 Proof. intros x se H. exists se. apply sess_get_In. exact H. Qed.
@@ -346,11 +393,13 @@ Proof. intros x se H. exists se. apply sess_get_In. exact H. Qed.
 Lemma QH_sess_put h na se se' :
   In (na, se) (sessions h) -> sess_desc se se' -> QH h (sess_put h na se').
 Proof.
-  intros Hin Hd. split; [reflexivity |].
-  intros x y H. cbn [sess_put sessions set_sessions] in H. apply In_alist_set in H.
-  destruct H as [H | H].
-  - inversion H; subst. exists se. auto.
-  - exists y. split; [exact H | apply sess_desc_refl].
+  intros Hin Hd. split; [reflexivity | split].
+  - intros x y H. cbn [sess_put sessions set_sessions] in H. apply In_alist_set in H.
+    destruct H as [H | H].
+    + inversion H; subst. exists se. auto.
+    + exists y. split; [exact H | apply sess_desc_refl].
+  - unfold UPres, SessUniq. cbn [sess_put sessions set_sessions]. rewrite alist_set_keys; [auto |].
+    apply in_map_iff. exists (na, se). auto.
 Qed.
 Lemma SessF_sess_put h na se' : SessF h (sess_put h na se').
 Proof.
@@ -370,8 +419,10 @@ Proof.
 Qed.
 Lemma QH_sess_remove h na : QH h (sess_remove h na).
 Proof.
-  split; [reflexivity |]. intros x y H. cbn [sess_remove sessions set_sessions] in H.
-  apply In_alist_remove in H. exists y. split; [exact H | apply sess_desc_refl].
+  split; [reflexivity | split].
+  - intros x y H. cbn [sess_remove sessions set_sessions] in H.
+    apply In_alist_remove in H. exists y. split; [exact H | apply sess_desc_refl].
+  - unfold UPres, SessUniq. cbn [sess_remove sessions set_sessions]. apply alist_remove_NoDup.
 Qed.
 
 (* encrypt_message: only the counter, the draws and nothing of the state *)
